@@ -330,7 +330,7 @@ func runC11(ctx *Ctx, idx int) {
 		// a1 a2 a3 / id:0 .. id:9: a common prefix of an odd number of half-bytes,
 		// a root with up to 16 children, several of them leaves without a tail,
 		// some with longer keys below
-		p := string(r.Bytes(r.Intn(4)))
+		p := string(r.Bytes(1 + r.Intn(3)))
 		h := byte(r.Intn(16)) << 4
 		var k []string
 		for x := 0; x < 16; x++ {
